@@ -74,3 +74,24 @@ package server
 //@ ensures [C08] willPpt != nil && willPpt.ResponseTopic != nil ==> msg.ResponseTopic == string(willPpt.ResponseTopic)
 //@ ensures [C08] willPpt != nil && willPpt.CorrelationData != nil ==> msg.CorrelationData == willPpt.CorrelationData
 //@ ensures [C08] willPpt != nil ==> msg.UserProperties == willPpt.User
+
+// signal: a non-blocking send of the decision to the will's channel (dropped if a decision is already buffered).
+//@ func (*willMsg).signal
+//@ props C08
+//@ requires [C08] w != nil
+//@ modifies chanlog
+//@ ensures [C08] chansent(w.send) == old(chansent(w.send)) || (chansent(w.send) == old(chansent(w.send)) + 1 && chanlast(w.send) == send)
+
+// disconnectHandler: a DISCONNECT suppresses the will unless its reason code is 0x04 (Disconnect with Will
+// Message); a v5 DISCONNECT may carry a new session expiry, which is stored under the client's id — but not a
+// non-zero one for a session whose expiry was zero (protocol error: the DISCONNECT is then not accepted and the will
+// stays armed).
+//@ func (*client).disconnectHandler
+//@ props C08 C05
+//@ let S = client.server.sessionStore
+//@ requires [C08] client != nil && dis != nil && client.opts != nil && client.server != nil && client.server.sessionStore != nil && (client.version == 5 ==> dis.Properties != nil)
+//@ modifies client.disconnect, client.cleanWillFlag, ghost(S.$expSets), ghost(S.$lastExpID), ghost(S.$lastExp)
+//@ ensures [C08] result == nil ==> client.disconnect == dis && client.cleanWillFlag == (dis.Code != 4)
+//@ ensures [C08] result != nil ==> client.cleanWillFlag == old(client.cleanWillFlag) && client.disconnect == old(client.disconnect) && S.$expSets == old(S.$expSets)
+//@ ensures [C05] result == nil && client.version == 5 && dis.Properties.SessionExpiryInterval != nil && *dis.Properties.SessionExpiryInterval != 0 ==> S.$expSets == old(S.$expSets) + 1 && S.$lastExpID == client.opts.ClientID && S.$lastExp == *dis.Properties.SessionExpiryInterval
+//@ ensures [C05] client.version != 5 || dis.Properties.SessionExpiryInterval == nil || *dis.Properties.SessionExpiryInterval == 0 ==> S.$expSets == old(S.$expSets)
